@@ -3,7 +3,7 @@
 from harness import common, gens, pattern
 from harness.props import C01, C02, C03
 
-EXTRA_OBLIGATION_FILES = ("Props/C11_kits.v",)
+EXTRA_OBLIGATION_FILES = ("Props/C11_kits.v", "Props/C11_src.v",)
 
 LEVEL_NOTE = ("Theorem for every vector class of the common shape that embeds the next level's sites (static check), every "
               "accepted vector, every insert of wildcard letters and every rotation: if the product carries the next-level "
